@@ -460,7 +460,7 @@ fn gen_history(rng: &mut Rng, o: &GenOpts) -> Vec<Op> {
         if o.noise && rng.chance(1, 6) {
             match rng.below(5) {
                 0 => if pos > 0 { ops.push(Op::TrySet(rng.below(pos as u64) as usize, 1 + rng.below(5) as usize)) },
-                1 => ops.push(Op::TrySet(start, 0)),
+                1 => ops.push(Op::TrySet(if rng.chance(1, 2) { start } else { start.saturating_add(len).saturating_add(1 + rng.below(40) as usize) }, 0)),
                 2 => ops.push(Op::TrySet(MAX - rng.below(3) as usize, 4)),
                 3 => ops.push(Op::SetLen(rng.below(pos as u64 + 1) as usize)),
                 _ => if gap > 0 { ops.push(Op::SetLen(start)) },   // then the run starts exactly at the new length
